@@ -69,3 +69,10 @@ Theorem C07_debug_unguarded_is :
   debug_unguarded = [("celeritas/track/StatusChecker.cc", "StatusChecker::data_")%string].
 Proof. exact debug_unguarded_is. Qed.
 Print Assumptions C07_debug_unguarded_is.
+
+(** the only cell whose guard is known to be insufficient is the reported
+    finding F-C07-1 (double-checked locking in ActionDiagnostic::begin_run_impl) *)
+Theorem C07_racy_reported_is :
+  racy_reported = [("celeritas/user/ActionDiagnostic.cc", "ActionDiagnostic::store_")%string].
+Proof. exact racy_reported_is. Qed.
+Print Assumptions C07_racy_reported_is.
